@@ -1,5 +1,31 @@
-"""Additional (non state-space) engines per property. Filled in as they are built."""
-ENGINES = {}
+"""Additional engines per property (besides the state-space explorer runs of plans.py)."""
+import driver
+
+
+def sub_runs(sub, runs_by_tier):
+    """Engine made of runs of another ccmc sub-command that emits the same JSON as `explore`."""
+    def eng(prop, tier, seed, out, known):
+        bins = {}
+        for cfg, args in runs_by_tier[tier]:
+            if cfg not in bins:
+                bins[cfg], _ = driver.build(cfg)
+            driver.explore_run(prop, cfg, bins[cfg], args, out, known, tier, seed, sub=sub)
+            if out.violations and tier == "quick":
+                break
+        return {}
+    return eng
+
+
+POLICY = {
+    "quick": [("full-dbg", ["--depth", "6"]), ("full-rel", ["--depth", "5", "--max-live", "4", "--max-objects", "5", "--sizes", "0,2,4,5"])],
+    "thorough": [("full-rel", ["--depth", "8", "--max-seconds", "900"]), ("full-rel", ["--depth", "0", "--max-live", "2", "--max-objects", "3", "--sizes", "0,3,5", "--percents", "0,1,2,4,6", "--max-seconds", "900"]), ("full-dbg", ["--depth", "6"])],
+}
+
+ENGINES = {
+    "C15": [sub_runs("policy", POLICY)],
+}
+
+SETUP = []
 
 
 def replay(rp):
